@@ -241,6 +241,62 @@ func TestStructuralNeighbourhood(t *testing.T) {
 	hx.Exhaustive("structural neighbourhood of 3 canonical packets x 27 types x 2 dialects: every truncation, declared sizes 0..len+8 and extremes, boundary values at every byte of every size/length/count/type field; same for 3 stat records")
 }
 
+// TestEnumCountFields: every 16-bit value in every element-count / stat-size
+// field (nwname, nwqid, stat[n], stat size) of the minimal and typical packets
+// that carry one: arithmetic on such counts (n*13, n*2, n+2 ...) must not wrap.
+func TestEnumCountFields(t *testing.T) {
+	fails := 0
+	idx := 0
+	for _, dotu := range []bool{false, true} {
+		for _, cn := range canonicals(dotu) {
+			fm, err := ref9p.FieldMap(cn.pkt, dotu)
+			if err != nil {
+				t.Fatalf("harness: %v", err)
+			}
+			if len(cn.pkt) > 120 {
+				continue // minimal and typical only
+			}
+			for _, f := range fm {
+				if f.Len != 2 || (f.Kind != "nw" && f.Kind != "statlen" && f.Kind != "statsize") {
+					continue
+				}
+				idx++
+				if hx.NShards > 1 && idx%hx.NShards != hx.Shard {
+					continue
+				}
+				hx.Label("count-sweep " + cn.name + " " + f.Name)
+				for v := 0; v < 65536; v++ {
+					b := append([]byte(nil), cn.pkt...)
+					binary.LittleEndian.PutUint16(b[f.Off:], uint16(v))
+					c := &Case{Kind: "msg", Dotu: dotu, Input: b, Desc: fmt.Sprintf("%s %s = %d", cn.name, f.Name, v)}
+					if err := try("countsweep", c); err != nil {
+						fails++
+						if fails <= 5 {
+							hx.Violation("countsweep", c, err.Error())
+							t.Errorf("%s: %v", c.Desc, err)
+						}
+					}
+					// and with the body cut right after the count field (few bytes present)
+					if v%8 == 5 || v < 64 {
+						b2 := append([]byte(nil), b[:f.Off+2]...)
+						b2 = append(b2, byte(v))
+						binary.LittleEndian.PutUint32(b2, uint32(len(b2)))
+						c2 := &Case{Kind: "msg", Dotu: dotu, Input: b2, Desc: fmt.Sprintf("%s %s = %d, body cut after the count", cn.name, f.Name, v)}
+						if err := try("countsweep", c2); err != nil {
+							fails++
+							if fails <= 5 {
+								hx.Violation("countsweep", c2, err.Error())
+								t.Errorf("%s: %v", c2.Desc, err)
+							}
+						}
+					}
+				}
+			}
+		}
+	}
+	hx.Exhaustive("every 16-bit value of every element-count and stat-size field (nwname, nwqid, stat[n], stat size) in the minimal and typical canonical packets, plus bodies cut right after the count")
+}
+
 // mutate applies 1..4 random edits.
 func mutate(t *rapid.T, b []byte, dotu bool, other []byte) []byte {
 	n := rapid.IntRange(1, 4).Draw(t, "nedits")
